@@ -3951,7 +3951,7 @@ def loader_loader__Load : List String := [
   "mergedProject.FileNames = opts.FileNames",
   "mergedProject.EnvFileNames = opts.EnvFileNames",
   "mergedProject.IsTuiDisabled = opts.isTuiDisabled || mergedProject.IsTuiDisabled",
-  "apply(mergedProject, setDefaultShell, assignDefaultProcessValues, cloneReplicas, copyWorkingDirToProbes)",
+  "apply(mergedProject, setDefaultShell, setDefaultLogLength, assignDefaultProcessValues, cloneReplicas, copyWorkingDirToProbes)",
   "err = applyWithErr(mergedProject, renderTemplates)",
   "if err != nil {",
   "return nil, err",
@@ -4060,7 +4060,7 @@ def loader_loader__loadProjectFromFile : List String := [
   "temp := strings.ReplaceAll(string(yamlFile), \"$$\", envEscaped)",
   "temp = os.ExpandEnv(temp)",
   "temp = strings.ReplaceAll(temp, envEscaped, \"$\")",
-  "project := &types.Project{LogLength: defaultLogLength}",
+  "project := &types.Project{}",
   "err = yaml.Unmarshal([]byte(temp), project)",
   "if err != nil {",
   "if opts.IsInternalLoader {",
